@@ -382,4 +382,37 @@ TCHazard(t, dc) ==
                  ELSE LET h == TCHazardAt(t, dc, (k \div nf) + 1, (k % nf) + 1)
                       IN IF h # "none" THEN h ELSE go(k + 1)
     IN go(0)
+
+\* =================================================================================
+\* WORLD (property level): several record files live in one process.  A session is
+\*   [files : Seq([fields, chunks : Seq(rows)]), steps : Seq([f, op]), obs : Seq(observation)]
+\* steps[i] is one call on file steps[i].f:
+\*   "ow" open for writing (truncating), "wr" write the next chunk of the file's table, "cl" close,
+\*   "wall" the one-shot write of the whole table, "or" open for reading, "rd" read everything through the
+\*   open handle, "rall" the one-shot read.
+\* The statement speaks about ONE file: what a read of file f must return is decided by the steps on f alone
+\* (TCWWritten: the rows written to f since it was last truncated) - never by the steps on other files that
+\* happen to be interleaved.  A read is judged (TCFailing) against that table once f is not open for writing;
+\* a non-read step of a well-formed session must not fail.
+\* =================================================================================
+TCWReadOps == {"rd", "rall"}
+RECURSIVE TCWFold(_, _, _, _)                    \* state of file f after steps 1..i: rows written, chunks written, open for writing
+TCWFold(files, steps, f, i) ==
+    IF i = 0 THEN [rows |-> <<>>, nch |-> 0, wopen |-> FALSE]
+    ELSE LET p == TCWFold(files, steps, f, i - 1)
+             s == steps[i]
+         IN IF s.f # f THEN p
+            ELSE CASE s.op = "ow"   -> [rows |-> <<>>, nch |-> 0, wopen |-> TRUE]
+                   [] s.op = "wr"   -> [rows |-> p.rows \o files[f].chunks[p.nch + 1], nch |-> p.nch + 1, wopen |-> p.wopen]
+                   [] s.op = "wall" -> [rows |-> TCFlat(files[f].chunks), nch |-> Len(files[f].chunks), wopen |-> FALSE]
+                   [] s.op = "cl"   -> [p EXCEPT !.wopen = FALSE]
+                   [] OTHER         -> p
+TCWWritten(files, steps, i) == TCWFold(files, steps, steps[i].f, i - 1)
+TCWStepFailing(r, i) ==
+    LET s == r.steps[i]
+        w == TCWWritten(r.files, r.steps, i)
+    IN IF s.op \in TCWReadOps
+       THEN (IF w.wopen THEN {} ELSE TCFailing([fields |-> r.files[s.f].fields, rows |-> w.rows], r.obs[i]))
+       ELSE (IF r.obs[i].err # "none" THEN {"step_error"} ELSE {})
+TCWSessionFailing(r) == UNION {{ToString(i) \o ":" \o c : c \in TCWStepFailing(r, i)} : i \in DOMAIN r.steps}
 =============================================================================
